@@ -11,11 +11,14 @@
        its look at the list - and (C13_remover_sets_the_flag) such an agent stays on that path until it has looked
        at the list and, finding it empty, set the flag.  So once the list is empty and every drop/unsubscribe call
        has returned, the flag is set and, by (3), every later send is refused as Disconnected.
-   Not proved: that the list is empty once the last receiver handle is gone (every registered stream has a holder
-   or a remover; the converse - a held stream is registered - is Props/C10.v); that a sender blocked or parked at
-   that moment is woken (C08/C14). *)
+   (6) C13_all_receivers_gone_flag_set: in every state (of every execution without the F11 step, counters below
+       2^62) in which no call is in progress and no receiver handle is alive, the flag is set - it rests on (5) and
+       on C13_registered_stream_is_held: every stream in the published list is held by somebody (a handle, a clone
+       in flight, a new stream's creator) or is being removed by the handle whose decrement found the count at one.
+       By (3) every send that starts afterwards returns Disconnected with its value.
+   Not proved: that a sender blocked or parked at that moment is woken (C08/C14). *)
 From Coq Require Import NArith List Bool.
-Require Import MQ.Arith64 MQ.Types MQ.State MQ.Model MQ.Exec MQ.Reach MQ.Ctl MQ.RecvDefs MQ.InvReg MQ.SigStep MQ.InvSig MQ.SigStepB MQ.InvEmpty.
+Require Import MQ.Arith64 MQ.Types MQ.State MQ.Model MQ.Exec MQ.Reach MQ.Ctl MQ.RecvDefs MQ.InvReg MQ.SigStep MQ.InvSig MQ.SigStepB MQ.InvEmpty MQ.Arith64Facts MQ.SumCount MQ.WinDefs MQ.InvWin MQ.WinRun MQ.HoldStepB MQ.InvHold MQ.InvGone.
 Import ListNotations.
 Open Scope N_scope.
 
@@ -83,3 +86,50 @@ Example C13_empty_witness :
   let s := reach_by c false (Start 1 CDrop :: repeat (Step 1) 23) in
   streams (sh s) = [] /\ no_reader (sh s) = true.
 Proof. vm_compute. split; reflexivity. Qed.
+
+Theorem C13_registered_stream_is_held : forall c fut s sg,
+  0 < c_n c -> c_n c <= B61 -> mreachN c fut s ->
+  lenN (ags s) < B62 -> lenN (g_log (sh s)) < B62 -> In sg (streams (sh s)) ->
+  1 <= sumf (wt sg) (ags s) \/ exists a A, get (ags s) a = Some A /\ lastp sg A = true.
+Proof. intros c fut s sg Np Ns R S1 S2 IN. exact (hold_mreachN c Np Ns fut s R (conj S1 S2) sg IN). Qed.
+Check C13_registered_stream_is_held : forall c fut s sg,
+  0 < c_n c -> c_n c <= B61 -> mreachN c fut s ->
+  lenN (ags s) < B62 -> lenN (g_log (sh s)) < B62 -> In sg (streams (sh s)) ->
+  1 <= sumf (wt sg) (ags s) \/ exists a A, get (ags s) a = Some A /\ lastp sg A = true.
+Print Assumptions C13_registered_stream_is_held.
+
+Theorem C13_all_receivers_gone_flag_set : forall c fut s,
+  0 < c_n c -> c_n c <= B61 -> mreachN c fut s ->
+  lenN (ags s) < B62 -> lenN (g_log (sh s)) < B62 ->
+  (forall a A, get (ags s) a = Some A ->
+     (a_pc A = Idle \/ a_pc A = Done) /\ (recv_role (a_role A) = true -> a_alive A = false)) ->
+  no_reader (sh s) = true.
+Proof. intros c fut s Np Ns R S1 S2 RG. exact (all_gone_flag c fut s Np Ns R (conj S1 S2) RG). Qed.
+Check C13_all_receivers_gone_flag_set : forall c fut s,
+  0 < c_n c -> c_n c <= B61 -> mreachN c fut s ->
+  lenN (ags s) < B62 -> lenN (g_log (sh s)) < B62 ->
+  (forall a A, get (ags s) a = Some A ->
+     (a_pc A = Idle \/ a_pc A = Done) /\ (recv_role (a_role A) = true -> a_alive A = false)) ->
+  no_reader (sh s) = true.
+Print Assumptions C13_all_receivers_gone_flag_set.
+
+(* non-vacuity: two receiver handles on two streams, both dropped; the premise of the theorem holds in that state *)
+Example C13_gone_witness :
+  let c := mk_cfg BCast 2 WBusy in
+  exists s, mreachN c false s /\ lenN (ags s) < B62 /\ lenN (g_log (sh s)) < B62 /\
+    (forall a A, get (ags s) a = Some A ->
+       (a_pc A = Idle \/ a_pc A = Done) /\ (recv_role (a_role A) = true -> a_alive A = false)) /\
+    streams (sh s) = [] /\ no_reader (sh s) = true /\ lenN (ags s) = 3.
+Proof.
+  cbv zeta.
+  destruct (m_run true (mk_cfg BCast 2 WBusy) (init false)
+              [MCall 1 (CAddStream 2) 60; MBegin 1 CDrop; MSteps 1 35; MBegin 2 CDrop; MSteps 2 35]) as [s|] eqn:E;
+    [|vm_compute in E; discriminate E].
+  exists s. split; [eapply m_run_sound; [apply mrn_init|exact E]|].
+  vm_compute in E. injection E as <-.
+  split; [vm_compute; reflexivity|]. split; [vm_compute; reflexivity|].
+  split; [|vm_compute; repeat split; reflexivity].
+  intros a A EA. unfold get in EA. cbn in EA.
+  repeat (match type of EA with (if ?b then _ else _) = _ => destruct b end);
+    try discriminate EA; injection EA as <-; cbn; (split; [auto|intros X; first [discriminate X|reflexivity]]).
+Qed.
